@@ -1,4 +1,5 @@
-//! Large sparse multilinear extensions: many variables (12..=18) and thousands of stored entries, a regime the
+//! Large multilinear extensions (dense tables up to 2^22 entries, see `dense_large_rel` / `dense_huge_rel`) and
+//! large sparse multilinear extensions: many variables (12..=18) and thousands of stored entries, a regime the
 //! table-based relations cannot reach (their oracle is 2^n * n). The oracle here sums over the *stored* entries only:
 //! f(x) = sum_{(b, v)} v * prod_i (b_i x_i + (1 - b_i)(1 - x_i)), which is the definition restricted to the support.
 //! Size-dependent code paths (the batching window of `fix_variables` grows with log2 of the entry count) are reached.
@@ -127,10 +128,25 @@ fn window(t: &mut Tape<'_>, nv: usize) -> (usize, usize, usize) {
 /// Large dense tables (10..=18 variables): fix_variables with short and long partial points, relabel and evaluate
 /// against the definition computed from the table.
 pub fn dense_large_rel<F: PrimeField>(t: &mut Tape<'_>, o: &mut Obs) -> R {
-    let nv = match t.weighted(&[1, 3]) {
-        0 => t.range(10, 15) as usize,
-        _ => t.range(15, 18) as usize,
+    dense_large_n::<F>(t, o, 18)
+}
+
+/// the same relation on very large tables (19..=22 variables, 2^22 entries = 32 MiB of 64-bit field elements)
+pub fn dense_huge_rel<F: PrimeField>(t: &mut Tape<'_>, o: &mut Obs) -> R {
+    dense_large_n::<F>(t, o, 22)
+}
+
+fn dense_large_n<F: PrimeField>(t: &mut Tape<'_>, o: &mut Obs, max_nv: u64) -> R {
+    let nv = if max_nv > 18 {
+        t.range(19, max_nv) as usize
+    } else {
+        match t.weighted(&[1, 3]) {
+            0 => t.range(10, 15) as usize,
+            _ => t.range(15, 18) as usize,
+        }
     };
+    o.class_if(nv >= 19, "nv>=19");
+    o.class_if(nv >= 19 && nv % 2 == 1, "nv>=19,odd");
     let seed = t.u64();
     let sparse_zeros = t.chance(1, 4);
     let table: Vec<F> = (0..1u64 << nv)
